@@ -1,5 +1,5 @@
 /- REGENERATED on every check run by extract/threadevents from runtime/thread.go — do not edit.
-   source hash (the extracted functions): a6d8003a3a9b3c3a -/
+   source hash (the extracted functions): 7ebfb83aa852551e -/
 import GoluaVerif.Model.CoProto
 namespace GoluaVerif.Generated.ThreadEvents
 open GoluaVerif.Model.CoProto
@@ -9,17 +9,17 @@ def p_Resume : Proc := ⟨"Resume", [
   [.lock .self, .unlock .self],
   [.lock .self, .lock .peer, .set .self, .unlock .self, .unlock .peer, .send .self, .recv .peer]]⟩
 
-/-- runtime/thread.go:220 -/
+/-- runtime/thread.go:225 -/
 def p_Close : Proc := ⟨"Close", [
   [.lock .self, .unlock .self],
   [.lock .self, .lock .peer, .set .self, .unlock .self, .unlock .peer, .send .self, .recv .peer]]⟩
 
-/-- runtime/thread.go:248 -/
+/-- runtime/thread.go:253 -/
 def p_Yield : Proc := ⟨"Yield", [
   [.lock .self, .unlock .self],
   [.lock .self, .lock .peer, .set .self, .unlock .self, .unlock .peer, .send .peer, .recv .self]]⟩
 
-/-- runtime/thread.go:272 -/
+/-- runtime/thread.go:277 -/
 def p_end : Proc := ⟨"end", [
   [.run, .lock .self, .lock .peer, .closeCh .self, .set .self, .touch, .send .peer, .unlock .peer, .unlock .self]]⟩
 
@@ -30,11 +30,11 @@ def p_Start : Proc := ⟨"Start", [
 def p_Start_go : Proc := ⟨"Start.go", [
   [.recv .self, .touch, .run, .touch, .callEnd]]⟩
 
-/-- runtime/thread.go:315 -/
+/-- runtime/thread.go:320 -/
 def p_getResumeValues : Proc := ⟨"getResumeValues", [
   [.recv .self]]⟩
 
-/-- runtime/thread.go:323 -/
+/-- runtime/thread.go:328 -/
 def p_sendResumeValues : Proc := ⟨"sendResumeValues", [
   [.send .self]]⟩
 
